@@ -8,6 +8,10 @@ structure DState where
   cli : PixelFormat := default
   econ : Bool := false
   cm : ColourMap := ⟨false, 0, fun _ => 0⟩
+  /-- colour map the lookup table was last built from -/
+  tcm : ColourMap := ⟨false, 0, fun _ => 0⟩
+  /-- `cl->readyForSetColourMapEntries` of the current client (set by a SetPixelFormat message) -/
+  ready : Bool := false
   /-- result of the last successful `set` (cleared by any configuration change) -/
   cur : Option SetResult := none
 
@@ -31,19 +35,30 @@ def showFmt (f : PixelFormat) : String :=
 
 def hexNat (bs : List Nat) : String := hex (bs.map UInt8.ofNat)
 
-def doSet (s : DState) : DState × List String :=
-  let r := setTranslate s.econ s.srv s.cli
-  match r.strat with
-  | .reject => ({ s with cur := none }, ["reject"])
-  | st =>
-    let head := if st == .none then "none" else s!"table={tableBytes st s.srv r.fmt}"
-    let tail := if r.sentCMap then " bgr233=" ++ hexNat bgr233Message else ""
-    ({ s with cur := some r }, [head ++ showFmt r.fmt ++ tail])
-
 /-- pairs of a 16-bit colour-map file are big-endian in the script -/
 def pairUp : List Nat → List Nat
   | a :: b :: rest => (a * 256 + b) :: pairUp rest
   | _ => []
+
+def doSet (s : DState) (viaMsg : Bool) : DState × List String :=
+  let r := setTranslate s.econ s.srv s.cli
+  match r.strat with
+  | .reject => ({ s with cur := none, ready := false }, ["reject"])   -- client closed; a new one follows
+  | st =>
+    let head := if st == .none then "none" else s!"table={tableBytes st s.srv r.fmt}"
+    let tail := if r.sentCMap then " bgr233=" ++ hexNat bgr233Message else ""
+    ({ s with cur := some r, tcm := s.cm, ready := s.ready || viaMsg },
+     [head ++ showFmt r.fmt ++ tail])
+
+def parseCMap (is16 cnt hx : String) : Option ColourMap :=
+  match is16.toNat?, cnt.toNat?, unhex? hx with
+  | some i, some c, some bytes =>
+    if i > 1 || c > 65536 || bytes.length != c * 3 * (if i == 1 then 2 else 1) then none
+    else
+      let raw := bytes.map UInt8.toNat
+      let vals := (if i == 1 then pairUp raw else raw).toArray
+      some ⟨i == 1, c, fun k => vals.getD k 0⟩
+  | _, _, _ => none
 
 def dstep (s : DState) (toks : List String) : DState × List String :=
   match toks with
@@ -56,21 +71,22 @@ def dstep (s : DState) (toks : List String) : DState × List String :=
       else (s, ["bad-op"])
     | none => (s, ["bad-op"])
   | ["cmap", is16, cnt, hx] =>
-    match is16.toNat?, cnt.toNat?, unhex? hx with
-    | some i, some c, some bytes =>
-      if i > 1 || c > 65536 || bytes.length != c * 3 * (if i == 1 then 2 else 1) then (s, ["bad-op"])
-      else
-        let raw := bytes.map UInt8.toNat
-        let vals := (if i == 1 then pairUp raw else raw).toArray
-        ({ s with cm := ⟨i == 1, c, fun k => vals.getD k 0⟩, cur := none }, ["ok"])
-    | _, _, _ => (s, ["bad-op"])
+    match parseCMap is16 cnt hx with
+    | some cm => ({ s with cm := cm, cur := none }, ["ok"])
+    | none => (s, ["bad-op"])
+  | ["recmap", is16, cnt, hx] =>
+    match parseCMap is16 cnt hx, s.cur with
+    | some cm, some _ =>
+      if !s.srv.trueColour && s.srv.bpp > 16 then (s, ["bad-op"]) else
+      ({ s with cm := cm, tcm := setClientColourMap s.ready s.srv s.tcm cm }, ["ok"])
+    | _, _ => (s, ["bad-op"])
   | ["econ", e] =>
     match e.toNat? with
     | some e => ({ s with econ := e != 0, cur := none }, ["ok"])
     | none => (s, ["bad-op"])
   | ["slack", _] => (s, ["ok"])
-  | ["set"] => doSet s
-  | ["setmsg"] => doSet s
+  | ["set"] => doSet s false
+  | ["setmsg"] => doSet s true
   | ["px", hx, w, h, stride] =>
     match s.cur, unhex? hx, w.toNat?, h.toNat?, stride.toNat? with
     | some r, some bytes, some w, some h, some stride =>
@@ -78,7 +94,7 @@ def dstep (s : DState) (toks : List String) : DState × List String :=
       if bytes.length < srcNeeded r.strat s.srv r.fmt stride w h then (s, ["bad-op"]) else
       if r.strat == .rgb && r.fmt.bpp == 24 then (s, ["unmodelled"]) else
       let arr := (bytes.map UInt8.toNat).toArray
-      let out := translateArea hostBE r.strat s.srv r.fmt s.cm (fun k => arr.getD k 0) stride w h
+      let out := translateArea hostBE r.strat s.srv r.fmt s.tcm (fun k => arr.getD k 0) stride w h
       (s, [hexNat out ++ " canary=ok"])
     | _, _, _, _, _ => (s, ["bad-op"])
   | _ => (s, ["bad-op"])
